@@ -3483,11 +3483,21 @@ impl ContinuityStore {
         const MAX_TAIL_EVENTS: usize = 512;
         const MAX_TAIL_BYTES: usize = 512 * 1024;
 
-        let tail = self
+        let tail = match self
             .stream_cache
             .scan_tail(continuity_id, MAX_TAIL_EVENTS, MAX_TAIL_BYTES)
-            .ok()
-            .flatten()?;
+        {
+            Ok(Some(tail)) => tail,
+            _ => {
+                // Sidecar missing or invalid: rebuild it from the truth log and scan again, so the
+                // answer does not depend on whether the cache happens to be present.
+                self.replay_events(continuity_id).ok()?;
+                self.stream_cache
+                    .scan_tail(continuity_id, MAX_TAIL_EVENTS, MAX_TAIL_BYTES)
+                    .ok()
+                    .flatten()?
+            }
+        };
 
         let mut ended: std::collections::HashSet<String> = std::collections::HashSet::new();
         for event in tail.events.iter().rev() {
